@@ -3043,7 +3043,9 @@ def check_added_database(ck: Optional[Ck], names: list[str], seed: int, n_bundle
 
 
 # =============================================================================================== answers are the caller's own
-ISOLATION_MUTATIONS = ['add-keyvalue', 'change-default', 'change-io-desc', 'drop-bases', 'mutate-base', 'drop-inputs', 'rename']
+ISOLATION_MUTATIONS = ['add-keyvalue', 'change-default', 'change-io-desc', 'drop-bases', 'mutate-base', 'drop-inputs', 'rename',
+                       # round 5: in-place changes of the containers one level further down (what a copy may still share)
+                       'append-resource', 'change-choices', 'reorder-keyvalues']
 
 
 def mutate_answer(ent: Any, how: str) -> bool:
@@ -3084,6 +3086,27 @@ def mutate_answer(ent: Any, how: str) -> bool:
         ent.inputs.clear()
         ent.outputs.clear()
         return True
+    if how == 'append-resource':
+        from srctools.const import FileType
+        from srctools.fgd import Resource
+        if not isinstance(ent.resources, list):
+            return False            # `()` = no resources: nothing a caller can change in place
+        ent.resources.append(Resource('models/c16_added.mdl', FileType.MODEL))
+        return True
+    if how == 'change-choices':
+        for tm in ent.keyvalues.values():
+            for kv in tm.values():
+                if kv.val_list:
+                    kv.val_list.reverse()
+                    kv.val_list.pop()
+                    return True
+        return False
+    if how == 'reorder-keyvalues':
+        if len(ent.kv_order) < 2:
+            return False
+        ent.kv_order.reverse()
+        ent.kv_order.pop()
+        return True
     if how == 'rename':
         ent.classname = 'c16_renamed'
         ent.desc = 'changed'
@@ -3096,6 +3119,8 @@ def deep_canon(e: Any) -> dict:
     from srctools.fgd import EntityDef
     c = multi_canon(e)
     c['base_defs'] = [multi_canon(b) for b in e.bases if isinstance(b, EntityDef)]
+    c['kv_order'] = list(e.kv_order)
+    c['value_lists'] = sorted((name, repr(kv.val_list)) for name, tm in e.keyvalues.items() for kv in tm.values() if kv.val_list)
     return c
 
 
@@ -3133,10 +3158,17 @@ def check_isolation(cases: list[tuple[str, str]], via: str) -> list[tuple[str, s
 def search_isolation(ck: Ck, names: list[str]) -> None:
     """State carried between calls: what engine_def() / engine_dbase() return belongs to the caller; changing it must not change what
     the next look-up or the whole database says (the lazily decoded definitions are cached inside the database objects)."""
+    from srctools import fgd as F
     rng = ck.rng
+    # classes on which the in-place changes of round 5 are applicable: a resources LIST, a keyvalue with a value list
+    with engine_db_list(None):
+        whole = F.FGD.engine_dbase()
+        fit = {'append-resource': [n for n in names if isinstance(getattr(whole.entities.get(n.casefold()), 'resources', ()), list)],
+               'change-choices': [n for n in names if n.casefold() in whole.entities and any(
+                   kv.val_list for tm in whole.entities[n.casefold()].keyvalues.values() for kv in tm.values())]}
     for i in range(ck.budget(3, 30)):
         via = 'engine_dbase' if i % 3 == 2 else 'engine_def'
-        cases = [(rng.choice(names), how) for how in ISOLATION_MUTATIONS for _ in range(2)]
+        cases = [(rng.choice(fit.get(how) or names), how) for how in ISOLATION_MUTATIONS for _ in range(2)]
         rng.shuffle(cases)
         try:
             found = check_isolation(cases, via)
